@@ -568,7 +568,13 @@ func (w *c53World) key() string {
 	} else {
 		fmt.Fprintf(&sb, "pos=%d/%d closed=%v impl{len=%d idx=%d n=%d} ", w.rd.pos, len(w.rd.exp), w.rd.closed, w.rd.r.len, w.rd.r.bufferIdx, len(w.rd.r.data))
 		if !w.rd.closed {
-			for _, v := range w.rd.ents {
+			for i, v := range w.rd.ents {
+				if w.rd.pos >= w.rd.ends[i] {
+					// consumed: the reader may already have released it, so the
+					// real object may be dead (and recycled) - not ours to read
+					sb.WriteString("consumed ")
+					continue
+				}
 				view(v)
 			}
 		}
